@@ -3,11 +3,14 @@ C11 — wire and storage encoding is canonical, lossless, and safe on arbitrary 
 
 Layer 1 (RLP framing): fully proved in Props/C11Rlp.lean
   dec_enc, enc_dec_canonical, decExact_canonical, enc_injective, enc_prefix_free, dec_total, alloc_bound, dec_progress.
-Layer 2 (libs/ser conventions, Model/Ser.lean): this file.  The full statements are kept as `def … : Prop`;
-  what is proved here is named `…_partial` or is a clause that holds outright.
+Layer 2 (libs/ser conventions, Model/Ser.lean): this file and Props/C11NoPanic.lean.  The full statements are kept as
+  `def … : Prop`; C11_no_panic_statement is proved (C11_no_panic, since fixes 8c7e349 / 2f1154b of /repo), the map
+  allocation clause is decMap_count_le; roundtrip is open (carried by the run), canonicity of foreign bytes is false
+  (counterexample below).
 -/
 import LinkVerif.Model.Ser
 import LinkVerif.Props.C11Rlp
+import LinkVerif.Props.C11NoPanic
 
 namespace Props.C11
 open Model.Rlp Model.Ser
@@ -42,14 +45,6 @@ theorem C11_canonical_counterexample : ¬ C11_canonical_statement := by
   rw [h2] at h1
   simp at h1
 
-/-! a registered concrete type that does not implement the target interface: found by its prefix, then `rv.Set` panics.
-    registry = {entry 0 with prefix 01..07, not assignable}; interface with no implementers; input = that prefix -/
-set_option maxRecDepth 100000 in
-theorem C11_no_panic_counterexample : ¬ C11_no_panic_statement := by
-  intro h
-  exact h { regs := [{ idx := 0, disfix := [1, 2, 3, 4, 5, 6, 7], ptr := true, ty := none }] } (.iface []) false
-    [1, 2, 3, 4, 5, 6, 7] (by rfl)
-
 /-- the encoder is partial on nil pointers to types with their own EncodeSER (it dereferences the nil receiver) -/
 theorem encode_nil_custom_panics (env : Env) (a : Bool) (t : Ty) :
     encodeBytes env (.cptr a t) [] .nil = .error .panic := by
@@ -57,8 +52,47 @@ theorem encode_nil_custom_panics (env : Env) (a : Bool) (t : Ty) :
 
 /-! ### clauses that hold -/
 
-/-- decoding is total: a value or an error (panic is one of the error classes of the model; see the counterexample
-    above for the one way it is reached) -/
+/-- safe on arbitrary input, clause "never crashes": for every type universe, registry, type, entry point and byte string
+    the decoder's outcome is a value or an error other than `panic` (after fixes 8c7e349 and 2f1154b; before 2f1154b a
+    registered prefix of a non-implementing type reached `rv.Set` and panicked) -/
+theorem C11_no_panic : C11_no_panic_statement := by
+  intro env t pre b
+  have g0 : Good ({ rest := b } : Stream) := by simp [Good]
+  unfold decodeBytes
+  simp only
+  cases pre with
+  | false =>
+    simp only [Bool.false_eq_true, if_false]
+    have hd := decV_np env (2 * b.length + 200) t { rest := b } g0
+    split
+    · next heq => rw [heq] at hd; intro hc; injection hc with hc; exact hd.1 (by rw [hc])
+    · split <;> simp
+  | true =>
+    simp only [if_true]
+    have hn := readN_np 7 { rest := b } g0
+    rcases hrn : readN 7 ({ rest := b } : Stream) with ⟨r, s'⟩
+    rw [hrn] at hn
+    cases r with
+    | error e =>
+      simp only
+      intro hc; injection hc with hc
+      exact hn.1 e rfl hc
+    | ok v =>
+      simp only
+      have hd := decV_np env (2 * b.length + 200) t s' hn.2
+      split
+      · next heq2 => rw [heq2] at hd; intro hc; injection hc with hc; exact hd.1 (by rw [hc])
+      · split <;> simp
+
+/-! non-vacuity: the former panic witness (a registered prefix whose type is not assignable to the interface) is now an
+    error; a truncated input is an error; the theorem is about a decoder that does accept inputs (examples below) -/
+set_option maxRecDepth 100000 in
+example : decodeBytes { regs := [{ idx := 0, disfix := [1, 2, 3, 4, 5, 6, 7], ptr := true, ty := none }] } (.iface []) false
+    [1, 2, 3, 4, 5, 6, 7] = .error .unknownPrefix := by rfl
+set_option maxRecDepth 100000 in
+example : decodeBytes {} (.struct [.uint 64, .uint 64]) false [0xC1, 0x05] = .error .tooFew := by rfl
+
+/-- decoding is total: a value or an error -/
 theorem decodeBytes_total (env : Env) (t : Ty) (pre : Bool) (b : Bytes) :
     (∃ v, decodeBytes env t pre b = .ok v) ∨ (∃ e, decodeBytes env t pre b = .error e) := by
   cases h : decodeBytes env t pre b with
